@@ -35,6 +35,7 @@ import (
 	clicmd "github.com/ajitpratap0/GoSQLX/cmd/gosqlx/cmd"
 	"github.com/ajitpratap0/GoSQLX/pkg/gosqlx"
 	"github.com/ajitpratap0/GoSQLX/pkg/models"
+	textscan "github.com/ajitpratap0/GoSQLX/pkg/security"
 	"github.com/ajitpratap0/GoSQLX/pkg/sql/ast"
 	"github.com/ajitpratap0/GoSQLX/pkg/sql/keywords"
 	"github.com/ajitpratap0/GoSQLX/pkg/sql/parser"
@@ -114,6 +115,9 @@ func textOps() []op {
 				ast.ReleaseAST(tree)
 			}
 		}},
+		op{"lint.cli-rules", func(it *item) { _ = ops.CLILinter().LintString(it.Text, "x.sql") }},
+		op{"lint.fix", func(it *item) { _, _ = ops.FixAll(it.Text) }},
+		op{"textscan.Scan", func(it *item) { _ = textscan.NewScanner().Scan(it.Text) }},
 		op{"TokenizeContext", func(it *item) {
 			t := tokenizer.GetTokenizer()
 			_, _ = t.TokenizeContext(context.Background(), []byte(it.Text))
@@ -270,7 +274,7 @@ const watchdog = 20 * time.Second
 
 // operations whose behaviour depends on the raw text beyond tokenizing it
 var rawOps = map[string]bool{"ops.tokenize": true, "ops.parse": true, "ops.scan": true, "ops.lint": true, "ops.format": true, "ops.recovery": true,
-	"TokenizeContext": true, "ops.errtext": true, "ops.formatpkg": true}
+	"TokenizeContext": true, "ops.errtext": true, "ops.formatpkg": true, "lint.cli-rules": true, "lint.fix": true, "textscan.Scan": true}
 
 func child(workFile string, shard, shards, from int, out string) {
 	debug.SetMaxStack(1 << 30)
@@ -656,6 +660,31 @@ func build(tier string) []item {
 					add(item{Kind: "text", Text: t, Origin: "Lexer.tla-narrow"})
 				}
 			}
+			// the same class sequence with the word spelled as a keyword that opens a clause and the character no
+			// token starts with spelled as a byte sequence whose length changes under case mapping (invalid UTF-8
+			// becomes U+FFFD, some letters have a longer or shorter capital): keyword-triggered code that works on
+			// a case-folded copy of the text must still use offsets of the text it slices
+			if cfg == "Lexer_inv5_7.cfg" && (len(cs.Inp) <= 5 || tier == "thorough" && len(cs.Inp) <= 6) {
+				for _, kw := range []string{"select", "ORDER", "union", "WITH", "Or", "like"} {
+					for _, bad := range []string{"\xff", "\u0250", "\u017f"} {
+						var b strings.Builder
+						for _, c := range cs.Inp {
+							switch c {
+							case "L":
+								b.WriteString(kw)
+							case "^":
+								b.WriteString(bad)
+							default:
+								b.WriteString(lexconc.Spell(c, 0))
+							}
+						}
+						if t := b.String(); !seenText[t] {
+							seenText[t] = true
+							add(item{Kind: "text", Text: t, Origin: "Lexer.tla-narrow"})
+						}
+					}
+				}
+			}
 		}
 	}
 	// texts: statements, prefixes, corruptions
@@ -692,8 +721,23 @@ func build(tier string) []item {
 	for _, b := range bad {
 		add(item{Kind: "text", Text: b.SQL, Origin: "single-token-corruption"})
 	}
-	// byte corruption of base statements
-	for bi, b := range stmts.Base {
+	// byte corruption of base statements and of one statement per payload of Injection.tla (the scanners' matching
+	// code only runs on text that carries a payload)
+	payloadStmts := []string{
+		"SELECT a FROM t WHERE b = 'x' OR 1=1",
+		"SELECT a FROM t WHERE b = 'x' OR 'a'='a'",
+		"SELECT a FROM t WHERE b = 'x' OR b = b",
+		"SELECT a FROM t WHERE b = 1 AND SLEEP(5)",
+		"SELECT a FROM t WHERE b = 1 OR pg_sleep(5) IS NULL",
+		"SELECT BENCHMARK(1000000, MD5('x')) FROM t",
+		"SELECT LOAD_FILE('/etc/passwd')",
+		"SELECT a FROM t; EXEC xp_cmdshell('dir')",
+		"SELECT a, b FROM t UNION SELECT NULL, NULL",
+		"SELECT a FROM t UNION ALL SELECT table_name FROM information_schema.tables",
+		"SELECT a FROM t WHERE b LIKE '%' || c || '%' OR true",
+		"SELECT a FROM t WHERE b = '' OR ''='' -- x",
+	}
+	for bi, b := range append(append([]string{}, stmts.Base...), payloadStmts...) {
 		for pos := 0; pos < len(b); pos++ {
 			for vi, v := range []string{"\x00", "\xff", "\x80", "\xc3", "\xe2\x80", "\xf0\x9f"} {
 				if tier != "thorough" && (pos+bi+vi)%3 != 0 {
